@@ -68,7 +68,7 @@ RInScope(s) ==
   /\ k.version # <<>>
   /\ \A i \in 1..Len(k.version) : RChar(k.version[i])
   /\ \A i \in 1..Len(k.release) : RChar(k.release[i])
-  /\ Len(StripZ(k.epoch)) <= 9
+  /\ Len(StripZ(k.epoch)) <= 18      \* every epoch below 10^18 (the parser reads it as a 64-bit integer)
   /\ (k.hasRel => Rpmvercmp(k.release, <<>>) = 1)
 
 -----------------------------------------------------------------------------
